@@ -15,6 +15,11 @@ class TypeMismatch(OutsideSubset):
     pass
 
 
+class PathEnds(Exception):
+    """The current path cannot continue: an operation on it certainly raises an internal
+    error (e.g. attribute of None).  The failed safety obligation has been recorded."""
+
+
 class TBottomT(Type):
     """Element type of an empty literal container, unified on first use."""
 
@@ -121,8 +126,9 @@ def coerce(sv, ty, classes=None):
     if isinstance(ty, TSeq) and isinstance(s, TSeq):
         if s.elem is TBottom:
             return SV(ty, z3.Empty(ty.sort()))
-        if isinstance(sv.t, _SeqLit):
-            return SV(ty, sv.t.build(ty, classes))
+        if sv.t is not None and sv.t.get_id() in _LITERALS:
+            # a list display: rebuild it with the wider element type
+            return SV(ty, _SeqLit(_LITERALS[sv.t.get_id()][1]).build(ty, classes))
     if isinstance(ty, TMap) and isinstance(s, TMap) and s.k is TBottom:
         return SV(ty, empty_map(ty))
     if isinstance(ty, TUnion):
@@ -137,6 +143,11 @@ def coerce(sv, ty, classes=None):
             except TypeMismatch:
                 continue
             cands.append((tg, alt, c))
+        if len(cands) > 1:
+            # prefer a structural fit over the any-value injection
+            non_inj = [x for x in cands if not (isinstance(x[1], TOpaque) and not isinstance(s, TOpaque))]
+            if non_inj:
+                cands = non_inj
         if len(cands) == 1:
             tg, alt, c = cands[0]
             return SV(ty, ty.inject(tg, None if alt == TNone else box(c)))
@@ -188,7 +199,12 @@ def seq_literal(items, classes=None):
             raise OutsideSubset('heterogeneous list literal')
         ty = j
     sty = TSeq(ty)
-    return SV(sty, _SeqLit(items).build(sty, classes))
+    term = _SeqLit(items).build(sty, classes)
+    _LITERALS[term.get_id()] = (term, list(items))     # keeps the term alive, so the id stays unique
+    return SV(sty, term)
+
+
+_LITERALS = {}
 
 
 def empty_map(ty):
